@@ -801,13 +801,22 @@ impl ReCompiler {
             _ => {}
         }
 
+        // the fixed-length repeats take only the first way their operand
+        // matches at a position; that is all there is to know unless the
+        // ways differ in the groups they set
+        let fixed_length = if Self::alternatives_set_groups(&ret) {
+            None
+        } else {
+            ret.get_match_length()
+        };
+
         if max == 0 {
             Ok(Operation::from(Nothing))
         } else if min == 1 && max == 1 {
             Ok(ret)
         } else if greedy {
             // actually do the quantifier now
-            if let Some(match_length) = ret.get_match_length() {
+            if let Some(match_length) = fixed_length {
                 if match_length > 0 {
                     Ok(Operation::from(GreedyFixed::new(
                         ret,
@@ -826,7 +835,7 @@ impl ReCompiler {
             } else {
                 Ok(Operation::from(Repeat::new(ret, min, max, true)))
             }
-        } else if let Some(match_length) = ret.get_match_length() {
+        } else if let Some(match_length) = fixed_length {
             if match_length > 0 {
                 Ok(Operation::from(ReluctantFixed::new(
                     ret,
@@ -843,6 +852,16 @@ impl ReCompiler {
             }
         } else {
             Ok(Operation::from(Repeat::new(ret, min, max, false)))
+        }
+    }
+
+    // Whether an operation offers alternatives of which some set a group: the
+    // same text can then be matched in ways that leave different groups
+    // behind, which a later back-reference can tell apart.
+    fn alternatives_set_groups(op: &Operation) -> bool {
+        match op {
+            Operation::Choice(_) => op.contains_capturing_expressions(),
+            _ => op.children().iter().any(Self::alternatives_set_groups),
         }
     }
 
